@@ -364,6 +364,8 @@ class Quaternion(SMUserList):
 
         :seealso: :func:`~spatialmath.quaternion.Quaternion.exp`, :func:`~spatialmath.quaternion.Quaternion.log`, :func:`~spatialmath.quaternion.UnitQuaternion.angvec`, 
         """
+        if len(self) > 1:
+            return Quaternion([q.log()._A for q in self])
         norm = self.norm()
         s = math.log(norm)
         norm_v = base.norm(self.v)
